@@ -19,6 +19,46 @@ KINDS = ["snp", "ins", "del", "inv", "two", "tri", "nest"]
 NONCHAIN = ["tip", "tricycle", "joined"]
 
 
+_HOSTILE = []
+
+
+def names_from_source():
+    """segment ids taken from the string constants of the analysed modules themselves (order_gfa.py, gfa.py): every word-like
+    piece of a constant without blanks ('Name', 'chr1', 'BO', 's', 'b', 'S', 'L', 'orange', ...) and the same followed by a
+    digit.  A comparison of a segment id (or of a line that starts with one) against such a constant is the kind of slip
+    that plain ids like s1 never meet."""
+    if _HOSTILE:
+        return _HOSTILE
+    import ast
+    import os
+    import re
+    from .. import loader
+
+    seen = []
+    for rel in ("gaftools/cli/order_gfa.py", "gaftools/gfa.py"):
+        try:
+            tree = ast.parse(open(os.path.join(loader.REPO, rel)).read())
+        except Exception:
+            continue
+        for n in ast.walk(tree):
+            if isinstance(n, ast.Constant) and isinstance(n.value, str) and " " not in n.value.strip():
+                for tok in re.split(r"[^A-Za-z0-9_]+", n.value):
+                    if 1 <= len(tok) <= 8 and tok not in seen:
+                        seen.append(tok)
+    for extra in ("0", "1", "b0", "b1", "H", "P", "W"):
+        if extra not in seen:
+            seen.append(extra)
+    for t in seen:
+        _HOSTILE.append(t)
+    for t in seen:
+        _HOSTILE.append(t + "7")
+    for t in seen:
+        if len(t) <= 2 and not t.isdigit():
+            for d in "012":
+                _HOSTILE.append(t + d)
+    return _HOSTILE
+
+
 class Spec:
     """abstract template graph: nodes (id -> dict(sn, sr, refpos or None, ln, seq)), links, expected chain"""
 
@@ -27,6 +67,16 @@ class Spec:
         self.order = []
         self.links = []
         self.chroms = {}  # name -> list of node ids
+        self.name_pos = 0  # naming 5: position in names_from_source()
+
+    def next_source_name(self):
+        names = names_from_source()
+        while True:
+            k = self.name_pos
+            self.name_pos += 1
+            nm = names[k % len(names)] + ("" if k < len(names) else "_%d" % (k // len(names)))
+            if nm not in self.nodes:
+                return nm
 
     def node(self, nid, sn, sr, refpos=None, ln=3):
         self.nodes[nid] = {"sn": sn, "sr": sr, "refpos": refpos, "ln": ln}
@@ -52,6 +102,8 @@ def build_chain(spec, chrom, kinds, tip_start=False, tip_end=False, naming=0, ex
         if naming == 4:
             # purely numeric segment ids counted from 0, as vg and many assemblers write them
             return str(base + cnt["r"] + cnt["a"] - 1)
+        if naming == 5:
+            return spec.next_source_name()
         return "%ss%02d" % (c, k if naming == 0 else 50 - k)
 
     def aname():
@@ -59,6 +111,8 @@ def build_chain(spec, chrom, kinds, tip_start=False, tip_end=False, naming=0, ex
         k = cnt["a"]
         if naming == 4:
             return str(base + cnt["r"] + cnt["a"] - 1)
+        if naming == 5:
+            return spec.next_source_name()
         return "%sx%02d" % (c, k if naming != 2 else 50 - k) if naming < 3 else "%sa%02d" % (c, k)
 
     refpos = [0]
